@@ -64,6 +64,7 @@ func vxIsAttackedSummary(p *Position, sq Square, by Color) bool {
 // IsLegalMove / DoMove+WasLegalMove == rules. Case split: origin, destination, move type concrete.
 func VN_C09_move_legality() int { return vxNumFeasible() }
 func VQ_C09_move_legality() int { return 16 }
+func VF_C09_move_legality() int { return vxNumSpecial() } // castling, en passant and promotions are always included
 func VH_C09_move_legality(i int) {
 	k := vxNthFeasible(i)
 	vxStub("(*github.com/frankkopp/FrankyGo/internal/position.Position).IsAttacked", vxIsAttackedSummary)
@@ -85,6 +86,7 @@ func VH_C09_move_legality(i int) {
 // the enemy king "check" is not defined by the rules).
 func VN_C09_gives_check() int { return vxNumFeasible() }
 func VQ_C09_gives_check() int { return 8 }
+func VF_C09_gives_check() int { return vxNumSpecial() } // castling, en passant and promotions are always included
 func VH_C09_gives_check(i int) {
 	k := vxNthFeasible(i)
 	vxStub(vxGetAttacksBb, VxGeoAttacks)
